@@ -59,12 +59,68 @@ CHECKS = {
             "That the directory after a retry equals the fault-free one is NOT decided."),
 }
 
+
+CHECKS.update({
+    "C01": ("DESIGN.md section 3/C01",
+            "representation-class table and finite decision tables evaluated over the generator's syntax tree",
+            "Decides necessary structural conditions of C01 for every input: each built-in leaf/container impl has the JSON shape class serde's data "
+            "model assigns to it (R1); wire-name precedence rename > rename_all > identifier at every naming site and serde's routing of "
+            "rename_all_fields (R2); the complete enum representation matrix (variant-untagged x 4 taggings x 5 field shapes x skipped): exactly "
+            "one template is selected per cell and it carries exactly tag/name/content/payload in serde's shape and order (R3); the struct-level "
+            "tag property is emitted first (R4). Flatten/tag composition, nesting and value-level membership are NOT decided."),
+    "C02": ("DESIGN.md section 3/C02",
+            "template guard recognition, impl inventory and dominance on MIR, enum representation matrix",
+            "Decides: `?` can only be emitted under the IsOption bound or the IS_OPTION test, IsOption/IS_OPTION exist only for Option<T> and are not "
+            "forwarded by wrapper macros (R1); every parsed field/variant attribute has its skip flag branched on and nothing is emitted on the "
+            "skip side (R2); tag literals / union arms per representation cell are exactly serde's (R3, shared with C01). Required-ness beyond `?`, "
+            "tuple lengths and leaf value ranges are NOT decided."),
+    "C03": ("DESIGN.md section 3/C03",
+            "template/dependency pairing on the syntax tree (path-insensitive and per decision cell), must-pass-through and origin analysis on MIR",
+            "Decides: every by-name type reference in a generator template is paired with push and every inlined one with append_from, per function "
+            "(R1) and per (type-override, flatten, inline) cell (R1b); Dependencies::push/append_from record on every path (R5); every generic "
+            "library impl visits exactly the parameters it names (R2); imports are computed on the erased type, self-filtered, and the same-file "
+            "test uses the normalised specifier (R3); importer and exporter walk the same relation (R4). Specifier correctness (C08) is NOT decided."),
+    "C04": ("DESIGN.md section 3/C04",
+            "dominance ordering on MIR, binding-origin rules and taint-to-quoted-sink enumeration on templates",
+            "Decides: file layout order notice/imports/declaration/newline and docs/export/decl (R1); every property-name slot is bound directly to "
+            "the quoting routine (R2); identifiers are un-raw'ed before becoming text (R3); every quoted interpolation without escaping is "
+            "enumerated (R4, known findings: no escaping routine exists). Parsing all outputs under a TypeScript grammar is NOT decided."),
+    "C07": ("DESIGN.md section 3/C07",
+            "sibling agreement of generic-parameter emitters and template scope analysis on the syntax tree",
+            "Decides: the seven emitters of the item's type parameters use the same source and treat `concrete` consistently (droppers vs replacers), "
+            "concrete maps are unioned (R1); decl() re-instantiates at placeholders, never through Self, and renders the header inside the "
+            "placeholder scope; decl_concrete() is `type N = Self::inline()` (R2); imports use the erased type (R3). Text equality across "
+            "instantiations is NOT decided beyond the template shape."),
+    "C09": ("DESIGN.md section 3/C09",
+            "resolved-callee comparison on MIR; decision tables on the syntax tree",
+            "Decides: field sites and variant sites must not share one context-free conversion (R1, known finding: they do); naming precedence at "
+            "the three sites over the un-raw'ed identifier (R2); rename_all_fields routing and precedence in from_variant (R3). Equality of each "
+            "conversion with serde's on every identifier is a string-function equality and is NOT decided."),
+    "C12": ("DESIGN.md section 3/C12",
+            "table extraction from macro invocations and impl templates; call-set comparison on MIR",
+            "Decides: each of the ~80 built-in impl rows has the class serde's data model assigns (number/bigint/string/boolean/null/transparent/"
+            "nullable/array/tuple/keyed-object/range/result), name() and inline() agree, arrays repeat exactly 0..N with the Vec fallback above the "
+            "limit, tuples cover arity 10 (R1); Named == Visited and Inlined <= Forwarded for every generic impl (R2). Third-party crate types are "
+            "reported unclassified; value-level agreement is NOT decided."),
+    "C14": ("DESIGN.md section 3/C14",
+            "routing rules and a finite decision evaluator over the generator's syntax tree",
+            "Decides: a field's raw type is read only through type_as (R1); every representation arm of format_variant uses the payload resolved "
+            "from the variant attributes (R2); per (type, flatten, inline) cell the three field formatters emit literal/inline_flattened/inline/"
+            "name and record none/append_from/append_from/push on the same variable (R3); decl_concrete shape and placeholder scope (R4); "
+            "reference/dependency pairing (R5); enum inline_flattened is always parenthesised (R6). Denotational equality of bindings is NOT decided."),
+    "C15": ("DESIGN.md section 3/C15",
+            "field-level information-flow (role classification of every read of a docs field), sanitizer-on-path rule on MIR, dominance ordering",
+            "Decides: doc text flows only into documentation sinks (R1); both member templates carry docs in the first slot and docs precede "
+            "`export` (R2); every doc literal passes replace(\"*/\", ..) before it is wrapped (R3); the blank-line contract between doc rendering "
+            "and merge() is reported (R4, known finding). That the comment contains the text verbatim is NOT decided."),
+})
+
 NOT_APPLICABLE = {
     "C08": "input/output relation of absolute∘diff_paths∘import_path over all pairs of run-time path strings: no pairing/ordering/ownership/table "
            "structure implies it; deciding it needs enumeration or symbolic reasoning over path values (a different technique family). See DESIGN.md section 4.",
 }
 
-PENDING = {k: "check under construction in this round (see DESIGN.md section 3); not yet claimed" for k in ["C01","C02","C03","C04","C07","C09","C12","C14","C15"]}
+PENDING = {}
 
 
 def main():
